@@ -25,7 +25,7 @@ fn fnv64(bs: &[u8]) -> u64 {
 static KDF_CACHE: Mutex<Option<HashMap<(Vec<u8>, Vec<u8>, usize), Vec<u8>>>> = Mutex::new(None);
 
 /// PBKDF2-HMAC-SHA1, 1000 iterations (WinZip note, "key generation").
-fn kdf(pw: &[u8], salt: &[u8], len: usize) -> Vec<u8> {
+pub(super) fn kdf(pw: &[u8], salt: &[u8], len: usize) -> Vec<u8> {
     let key = (pw.to_vec(), salt.to_vec(), len);
     let mut g = KDF_CACHE.lock().unwrap();
     let m = g.get_or_insert_with(HashMap::new);
@@ -62,13 +62,13 @@ fn hmac_sha1(key: &[u8], msg: &[u8]) -> Vec<u8> {
     m.finalize().into_bytes().to_vec()
 }
 
-fn deflate_raw(data: &[u8]) -> Vec<u8> {
+pub(super) fn deflate_raw(data: &[u8]) -> Vec<u8> {
     let mut e = flate2::write::DeflateEncoder::new(Vec::new(), flate2::Compression::default());
     e.write_all(data).unwrap();
     e.finish().unwrap()
 }
 
-fn inflate_raw(data: &[u8]) -> Option<Vec<u8>> {
+pub(super) fn inflate_raw(data: &[u8]) -> Option<Vec<u8>> {
     let mut d = flate2::read::DeflateDecoder::new(data);
     let mut out = vec![];
     d.read_to_end(&mut out).ok()?;
@@ -76,10 +76,10 @@ fn inflate_raw(data: &[u8]) -> Option<Vec<u8>> {
 }
 
 /// salt ‖ verifier ‖ ciphertext ‖ authentication code; also the inner (compressed) bytes.
-struct Enc {
-    payload: Vec<u8>,
-    inner: Vec<u8>,
-    crc: u32,
+pub(super) struct Enc {
+    pub(super) payload: Vec<u8>,
+    pub(super) inner: Vec<u8>,
+    pub(super) crc: u32,
 }
 
 /// The inner (compressed) stream of an entry: the codec libraries called directly.
@@ -107,8 +107,13 @@ fn encrypt_inner(bits: usize, pw: &[u8], inner: Vec<u8>, plain: &[u8], salt: &[u
     Enc { payload, inner, crc: crc32fast::hash(plain) }
 }
 
+/// Compress with the inner method, then encrypt (used by the `clones` stream).
+pub(super) fn encrypt(bits: usize, method: u16, pw: &[u8], plain: &[u8], salt: &[u8]) -> Enc {
+    encrypt_inner(bits, pw, compress_inner(method, plain), plain, salt)
+}
+
 /// extra field 0x9901: size 7, version, "AE", strength, actual method
-fn aes_extra(ver: u16, strength: u8, method: u16) -> Vec<u8> {
+pub(super) fn aes_extra(ver: u16, strength: u8, method: u16) -> Vec<u8> {
     let mut e = vec![0x01, 0x99, 7, 0];
     e.extend_from_slice(&ver.to_le_bytes());
     e.extend_from_slice(b"AE");
@@ -120,19 +125,19 @@ fn aes_extra(ver: u16, strength: u8, method: u16) -> Vec<u8> {
 // ------------------------------------------------------------------------------------------
 // archive builder from raw fields
 
-struct Fields {
-    flag: u16,
-    cmethod: u16,
-    extra: Vec<u8>,
-    csize: u32,
-    usize_: u32,
-    crc: u32,
-    body: Vec<u8>,
-    tail_layout: bool,
-    pre: Option<Vec<u8>>,
+pub(super) struct Fields {
+    pub(super) flag: u16,
+    pub(super) cmethod: u16,
+    pub(super) extra: Vec<u8>,
+    pub(super) csize: u32,
+    pub(super) usize_: u32,
+    pub(super) crc: u32,
+    pub(super) body: Vec<u8>,
+    pub(super) tail_layout: bool,
+    pub(super) pre: Option<Vec<u8>>,
 }
 
-fn local_header(name: &[u8], flag: u16, method: u16, crc: u32, cs: u32, us: u32, extra: &[u8]) -> Vec<u8> {
+pub(super) fn local_header(name: &[u8], flag: u16, method: u16, crc: u32, cs: u32, us: u32, extra: &[u8]) -> Vec<u8> {
     let mut v = vec![];
     v.extend_from_slice(&0x04034b50u32.to_le_bytes());
     v.extend_from_slice(&51u16.to_le_bytes());
@@ -150,7 +155,7 @@ fn local_header(name: &[u8], flag: u16, method: u16, crc: u32, cs: u32, us: u32,
     v
 }
 
-fn central_header(name: &[u8], flag: u16, method: u16, crc: u32, cs: u32, us: u32, extra: &[u8], off: u32) -> Vec<u8> {
+pub(super) fn central_header(name: &[u8], flag: u16, method: u16, crc: u32, cs: u32, us: u32, extra: &[u8], off: u32) -> Vec<u8> {
     let mut v = vec![];
     v.extend_from_slice(&0x02014b50u32.to_le_bytes());
     v.extend_from_slice(&0x0333u16.to_le_bytes());
@@ -647,7 +652,7 @@ fn pull_probe(method: u16, d: &[u8]) -> (String, usize, usize, Vec<u8>) {
 }
 
 /// (table string, decrypted stream the AES layer can deliver when the verifier matches)
-fn tables2(bits: usize, csize_eff: u64, body: &[u8], trypw: Option<&[u8]>) -> (String, Option<Vec<u8>>) {
+pub(super) fn tables2(bits: usize, csize_eff: u64, body: &[u8], trypw: Option<&[u8]>) -> (String, Option<Vec<u8>>) {
     let empty = "ksalt=- kdf=- kkey=- ks=- mkey=- mh=0 mlen=0 mac=-".to_string();
     let (k, sl) = (bits / 8, bits / 16);
     let pw = match trypw { Some(p) => p, None => return (empty, None) };
@@ -776,7 +781,7 @@ pub fn aes_archive(ver: u16, bits: usize, method: u16, pw: &[u8], plain: &[u8], 
 }
 
 /// Minimal central-directory walk for the repo fixture (no crate code involved).
-fn fixture_entries(zipb: &[u8]) -> Vec<(String, Fields)> {
+pub(super) fn fixture_entries(zipb: &[u8]) -> Vec<(String, Fields)> {
     let rd16 = |o: usize| u16::from_le_bytes([zipb[o], zipb[o + 1]]) as usize;
     let rd32 = |o: usize| u32::from_le_bytes([zipb[o], zipb[o + 1], zipb[o + 2], zipb[o + 3]]);
     let mut e = zipb.len() - 22;
